@@ -337,8 +337,11 @@ def derived_flag(repo, chk):
                         if val == "True":
                             ok = True
                         elif where == "tf_pwa/amp/core.py::DecayGroup.__init__":
+                            from .c07 import expand as _expand, single_defs as _single_defs
+
+                            _defs = {k: v for k, v in _single_defs(f.node).items() if k not in ("chains", "self.chains", "self.chains_idx")}
                             ok = val == "False" and any(
-                                isinstance(x, ast.Assign) and norm_text(x.targets[0]) == "self.chains_idx" and norm_text(x.value) in ("list(range(len(chains)))", "list(range(len(self.chains)))")
+                                isinstance(x, ast.Assign) and norm_text(x.targets[0]) == "self.chains_idx" and norm_text(_expand(x.value, _defs)).replace(" ", "") in ("list(range(len(chains)))", "list(range(len(self.chains)))", "list(range(0,len(chains)))", "[*range(len(chains))]")
                                 for x in walk_stmt(f.node)
                             )
                         elif where == "tf_pwa/amp/core.py::DecayGroup.set_used_chains":
